@@ -154,7 +154,10 @@ def NetD.leaf (D : NetD) (k : Nat) : Net.LeafSem Int :=
     | some R => R.sem
     | none => idleSem
 
-def NetD.regIds (D : NetD) : List Nat := (List.range D.regs.length).map (· + D.combs.length)
+/-- leaf id of the `j`-th register -/
+def NetD.rid (D : NetD) (j : Nat) : Nat := D.combs.length + j
+
+def NetD.regIds (D : NetD) : List Nat := (List.range D.regs.length).map D.rid
 
 def NetD.design (D : NetD) : Net.Design Int :=
   { width := D.wd, leaf := D.leaf, order := D.order, drivers := [⟨none, D.regIds⟩] }
